@@ -35,7 +35,7 @@ Inductive case :=
   (* alias composition on real cache state.  Names are numbers (one per folded name).  [wview]: the chain
      the question would walk on the wire-path server, read entry by entry through the overlay hook
      cache.VC05ChaseView (hop 0 = the alias entry, the others keyed by the name they were looked up under);
-     [code_segs] / [code_comp]: what Cache.collectWireChase filled (names asked, in order) and the records
+     [code_segs] / [code_comp]: what Cache.collectWireChase filled (stored names of the segments, in order) and the records
      and AD of composeWireChase's reply on that same state; [wire_reply]: answers of the reply the byte path
      really sent when the composer served it; [mview] the same view on the decoded-path server and
      [msg_reply] (rcode, answers) of the reply it really sent (None: nothing comparable was written) *)
@@ -159,7 +159,7 @@ Definition check_case (c : case) : bool :=
       match wview with
       | Some v =>
           let r := model_collect qtype qname v in
-          opt_names_eqb (option_map (map fst) r) code_segs &&
+          opt_names_eqb (option_map (map (fun p => ce_name N (snd p))) r) code_segs &&
           match r, code_comp with
           | Some segs, Some (recs, ad) =>
               rrecs_eqb (compose_answers N (map snd segs)) recs && Bool.eqb (compose_ad N cd (map snd segs)) ad
